@@ -43,8 +43,11 @@ type concEvent struct {
 	C bool   `json:"c"`
 }
 
-const sharedScript = `n = n + 1; if ( Name ~= /^a/ ) { return true; } return len(Tags) > 1;`
-const ownScript = `c = c + 1; return Name ~= /b+/ || match(Name, Pattern);`
+const sharedScript = `function more(l, k) { return len(l) > k; } n = n + 1; if ( Name ~= /^a/ ) { return true; } return more(Tags, 1);`
+const ownScript = `function fib(k) { if ( k < 2 ) { return k; } return fib(k - 1) + fib(k - 2); } c = c + 1; return fib(7) == 13 && ( Name ~= /b+/ || match(Name, Pattern) );`
+
+// an evaluator with a deadline: the run on a spinning object is cut off, the others go through
+const timedScript = `while ( Spin ) { } return true;`
 
 type concRecorder struct {
 	mu     sync.Mutex
@@ -54,6 +57,7 @@ type concRecorder struct {
 	consts map[*vm.VM][]object.Object
 	gids   map[int]int
 	lastOp map[int][2]int // per goroutine: previous op and arg
+	lastVM map[int]string // per goroutine: the evaluator whose machine state its last event touched ("" = none)
 }
 
 func (r *concRecorder) g() int {
@@ -66,6 +70,9 @@ func (r *concRecorder) g() int {
 }
 
 func (r *concRecorder) add(e, x string, c bool) {
+	if r.lastVM != nil && !(e == "wr" && strings.HasSuffix(x, ".vm")) {
+		delete(r.lastVM, r.g()) // any other event of this goroutine ends its stretch of machine-state accesses
+	}
 	owner := ""
 	if e == "lock" || e == "unlock" {
 		owner = x
@@ -77,7 +84,7 @@ func (r *concRecorder) add(e, x string, c bool) {
 
 // record one real concurrent execution of the scenario and return its events
 func recordConcurrent(c *Check) ([]concEvent, bool) {
-	rec := &concRecorder{names: map[*evalfilter.Eval]string{}, vms: map[*vm.VM]string{}, consts: map[*vm.VM][]object.Object{}, gids: map[int]int{}, lastOp: map[int][2]int{}}
+	rec := &concRecorder{names: map[*evalfilter.Eval]string{}, vms: map[*vm.VM]string{}, consts: map[*vm.VM][]object.Object{}, gids: map[int]int{}, lastOp: map[int][2]int{}, lastVM: map[int]string{}}
 	mk := func(name, src, counter string) *evalfilter.Eval {
 		e := evalfilter.New(src)
 		e.SetVariable(counter, &object.Integer{Value: 0})
@@ -96,6 +103,17 @@ func recordConcurrent(c *Check) ([]concEvent, bool) {
 	if shared == nil || own1 == nil || own2 == nil {
 		return nil, false
 	}
+	// (its context is re-armed for every run: each spinning run is cut off 30 ms after it started)
+	timed := evalfilter.New(timedScript)
+	timedCtx := newResetCtx()
+	timed.SetContext(timedCtx)
+	if err := timed.Prepare(); err != nil {
+		c.fail("C11 scenario script rejected: " + err.Error())
+		return nil, false
+	}
+	rec.names[timed] = "T"
+	rec.vms[timed.VerifMachine()] = "T"
+	rec.consts[timed.VerifMachine()] = timed.VerifMachine().VerifConstants()
 	evalfilter.VerifLockHook = func(e *evalfilter.Eval, ev string) {
 		rec.mu.Lock()
 		defer rec.mu.Unlock()
@@ -142,8 +160,10 @@ func recordConcurrent(c *Check) ([]concEvent, bool) {
 			rec.add("wr", name+"."+counter, true)
 		default:
 			// every instruction works on the machine's own state; one event per stretch is enough
-			if n := len(rec.events); n == 0 || !(rec.events[n-1].G == g && rec.events[n-1].E == "wr" && rec.events[n-1].X == name+".vm") {
+			// (merged per goroutine: what others record in between does not split the stretch)
+			if rec.lastVM[g] != name {
 				rec.add("wr", name+".vm", false)
+				rec.lastVM[g] = name
 			}
 		}
 		rec.lastOp[g] = [2]int{int(op), arg}
@@ -174,8 +194,36 @@ func recordConcurrent(c *Check) ([]concEvent, bool) {
 			_, _ = e.Run(map[string]interface{}{"Name": "abb", "Pattern": fmt.Sprintf("x%d+y%d", gi, time.Now().UnixNano()%1000)})
 		}(gi, e)
 	}
+	// the deadline of the timed evaluator: its context is cancelled every 20 ms and re-armed a moment later, so
+	// that every spinning run - whenever it gets the lock - is cut off
+	stopPulse := make(chan struct{})
+	go pulse(timedCtx, stopPulse)
+	defer close(stopPulse)
+	for gi := 0; gi < 2; gi++ {
+		wg.Add(1)
+		go func(gi int) {
+			defer wg.Done()
+			<-start
+			for r := 0; r < 2; r++ {
+				_, _ = timed.Run(map[string]interface{}{"Spin": (gi+r)%2 == 0})
+			}
+		}(gi)
+	}
 	close(start)
-	wg.Wait()
+	// every call returns: a goroutine still inside Run after a minute is stuck for good
+	done := make(chan struct{})
+	go func() { wg.Wait(); close(done) }()
+	select {
+	case <-done:
+	case <-time.After(60 * time.Second):
+		rec.mu.Lock()
+		evs := append([]concEvent{}, rec.events...)
+		rec.mu.Unlock()
+		c.disagree(&Disagreement{Kind: "concurrency", Script: sharedScript + "  ||  " + ownScript + "  ||  " + timedScript,
+			Expected: "every concurrent call of Run returns", Got: "some goroutines are still inside Run a minute after the last deadline (the recorded events end with a lock that is never released)",
+			Detail: map[string]interface{}{"last_events": evs[max(0, len(evs)-12):]}})
+		return nil, false
+	}
 	return rec.events, true
 }
 
@@ -241,8 +289,51 @@ func c11Worker(rounds int) int {
 				ownOK[mI] = ok && cv.Inspect() == fmt.Sprint(R)
 			}(mI)
 		}
+		// an evaluator with a deadline shared by three goroutines: spinning runs are cut off, every call returns
+		timed := evalfilter.New(timedScript)
+		tctx := newResetCtx()
+		timed.SetContext(tctx)
+		if timed.Prepare() != nil {
+			return 2
+		}
+		stopPulse := make(chan struct{})
+		go pulse(tctx, stopPulse)
+		timedOK := make([]bool, 3)
+		for ti := 0; ti < 3; ti++ {
+			wg.Add(1)
+			go func(ti int) {
+				defer wg.Done()
+				<-start
+				ok := true
+				for r := 0; r < 3; r++ {
+					spin := (ti+r)%3 == 0
+					v, err := timed.Run(map[string]interface{}{"Spin": spin})
+					if spin {
+						ok = ok && err != nil
+					} else {
+						// (a run which is not spinning may still be hit by the deadline: it then fails, never lies)
+						ok = ok && (err != nil || v)
+					}
+				}
+				timedOK[ti] = ok
+			}(ti)
+		}
 		close(start)
-		wg.Wait()
+		finished := make(chan struct{})
+		go func() { wg.Wait(); close(finished) }()
+		select {
+		case <-finished:
+			close(stopPulse)
+		case <-time.After(90 * time.Second):
+			fmt.Println("STUCK some calls of Run never returned")
+			return 1
+		}
+		for ti, ok := range timedOK {
+			if !ok {
+				bad++
+				fmt.Printf("WRONG-RESULT timed evaluator %d\n", ti)
+			}
+		}
 		for g := range verdicts {
 			for _, ok := range verdicts[g] {
 				if !ok {
@@ -281,7 +372,7 @@ func buildRaceWorker() (string, error) {
 }
 
 func checkC11(c *Check) {
-	c.rule = "one real concurrent execution (3 goroutines x 2 Run calls on a shared evaluator with objects incl. nil, a persistent counter, a regexp; 2 goroutines with evaluators of their own matching never-seen patterns) is recorded through the lock, cache and step hooks as per-goroutine event sequences (evaluator lock/unlock, cache lock/unlock/read/write, reads and writes of the counter, accesses to the machine state); TLC (Trace_Conc) keeps program order and lock semantics and explores ALL interleavings consistent with them, checking NoDataRace (two goroutines about to touch one location, one writing, no common lock), NoLostUpdate, MutualExclusion, Balanced, NoDeadlock and LockDiscipline (every access happens under the lock of its owner, locks are released in reverse order); the same module (EFConc) is first explored as a design (MC_Conc: G goroutines x R runs on a shared evaluator, M evaluators of their own, all interleavings; with the evaluator lock or the cache lock removed TLC must find the race, the lost update and the broken discipline); the same scenario, larger (8+4 goroutines x 5 runs, repeated), runs in a worker built with the Go race detector: a race report, a lost update or a wrong verdict is a violation; distinct = recorded events / worker rounds"
+	c.rule = "one real concurrent execution (3 goroutines x 2 Run calls on a shared evaluator with objects incl. nil, a persistent counter, a regexp and a user-defined function; 2 goroutines with evaluators of their own running a recursive function and matching never-seen patterns; 2 goroutines sharing an evaluator with a deadline, half of whose runs spin until they are cut off) is recorded through the lock, cache and step hooks as per-goroutine event sequences (evaluator lock/unlock, cache lock/unlock/read/write, reads and writes of the counter, accesses to the machine state); TLC (Trace_Conc) keeps program order and lock semantics and explores ALL interleavings consistent with them, checking NoDataRace (two goroutines about to touch one location, one writing, no common lock), NoLostUpdate, MutualExclusion, Balanced, NoDeadlock and LockDiscipline (every access happens under the lock of its owner, locks are released in reverse order); the same module (EFConc) is first explored as a design (MC_Conc: G goroutines x R runs on a shared evaluator, M evaluators of their own, all interleavings; with the evaluator lock or the cache lock removed TLC must find the race, the lost update and the broken discipline); the same scenario, larger (8+4 goroutines x 5 runs, repeated), runs in a worker built with the Go race detector: a race report, a lost update or a wrong verdict is a violation; distinct = recorded events / worker rounds"
 	c.assumptions = []string{"the hooks sit at the accesses to shared state (the cache hooks are inside compileRegexp, the lock hooks next to the evaluator mutex, the step hook sees every instruction)", "Go's race detector observes the schedules that occur; TLC's exhaustiveness is over the recorded events"}
 	events, ok := recordConcurrent(c)
 	if !ok {
@@ -302,19 +393,34 @@ func checkC11(c *Check) {
 	// then the same with each lock switched off, which must fail - else the invariants say nothing
 	designConc(c)
 	cfg := "SPECIFICATION Spec\nCONSTANT Events <- Recorded\nINVARIANT NoDataRace\nINVARIANT NoLostUpdate\nINVARIANT MutualExclusion\nINVARIANT Balanced\nINVARIANT NoDeadlock\nINVARIANT LockDiscipline\nCHECK_DEADLOCK FALSE\n"
-	res, err := runTLC(tlcOpts{Module: "Trace_Conc", Cfg: cfg, Timeout: 20 * time.Minute, Extra: map[string]string{"conc.ndjson": sb.String()}})
-	if res != nil {
-		c.addTLC(res)
-	}
+	// goroutines which share no lock and no location cannot influence each other: each connected group of
+	// goroutines is explored on its own (the product of independent groups only multiplies the states)
 	tlcRace := ""
-	if err != nil {
-		c.fail(err.Error())
-	} else if res.Violation != "" {
-		tlcRace = res.Violation
-	} else {
-		c.mu.Lock()
-		c.traces++
-		c.mu.Unlock()
+	var res *tlcResult
+	groups := independentGroups(events)
+	c.extra["independent_groups"] = len(groups)
+	for _, grp := range groups {
+		var gb strings.Builder
+		for _, e := range grp {
+			b, _ := json.Marshal(e)
+			gb.Write(b)
+			gb.WriteByte('\n')
+		}
+		r, err := runTLC(tlcOpts{Module: "Trace_Conc", Cfg: cfg, Timeout: 20 * time.Minute, Extra: map[string]string{"conc.ndjson": gb.String()}})
+		if r != nil {
+			c.addTLC(r)
+			res = r
+		}
+		if err != nil {
+			c.fail(err.Error())
+		} else if r.Violation != "" {
+			tlcRace = r.Violation
+			break
+		} else {
+			c.mu.Lock()
+			c.traces++
+			c.mu.Unlock()
+		}
 	}
 	// confirmation on the real code under the race detector
 	rounds := 30
@@ -345,6 +451,8 @@ func checkC11(c *Check) {
 				what = "data race reported by the Go race detector"
 			case strings.Contains(out, "concurrent map"):
 				what = "fatal concurrent map access"
+			case strings.Contains(out, "STUCK"):
+				what = "calls of Run which never return (a lock is never released)"
 			case strings.Contains(out, "LOST-UPDATE"):
 				what = "lost update of the persistent counter"
 			case strings.Contains(out, "WRONG-"):
@@ -421,6 +529,61 @@ func designConc(c *Check) {
 		c.count("design|"+what+"|"+strings.Join(cf.invs, ","), true)
 	}
 	c.extra["design_configurations"] = held
+}
+
+// independentGroups splits the recorded events into the connected components of "shares a lock or a location"
+func independentGroups(events []concEvent) [][]concEvent {
+	parent := map[int]int{}
+	var find func(int) int
+	find = func(x int) int {
+		if p, ok := parent[x]; ok && p != x {
+			parent[x] = find(p)
+			return parent[x]
+		}
+		parent[x] = x
+		return x
+	}
+	first := map[string]int{}
+	for _, e := range events {
+		find(e.G)
+		key := e.X
+		if e.E == "clock" || e.E == "cunlock" {
+			key = "cache-lock"
+		}
+		if g, ok := first[key]; ok {
+			parent[find(e.G)] = find(g)
+		} else {
+			first[key] = e.G
+		}
+	}
+	byRoot := map[int][]concEvent{}
+	var roots []int
+	for _, e := range events {
+		r := find(e.G)
+		if _, ok := byRoot[r]; !ok {
+			roots = append(roots, r)
+		}
+		byRoot[r] = append(byRoot[r], e)
+	}
+	var out [][]concEvent
+	for _, r := range roots {
+		out = append(out, byRoot[r])
+	}
+	return out
+}
+
+// pulse cancels the context every 20 ms and re-arms it a millisecond later, until stop is closed
+func pulse(ctx *resetCtx, stop chan struct{}) {
+	for {
+		select {
+		case <-stop:
+			return
+		case <-time.After(20 * time.Millisecond):
+		}
+		ctx.cancel()
+		time.Sleep(time.Millisecond)
+		ctx.reset()
+	}
 }
 
 func firstLines(s string, n int) string {
